@@ -227,6 +227,10 @@ def run(ctx):
     n = shared.own_deadlock_sites(ctx, "C10.4")
     ctx.floor("C10.4 turn-waiting call sites", n, 3)
 
+    # ---- C10.7 "earlier pipelined requests are still answered first": a rejection response is written through a
+    # writer drawn from the same chain (C01.6); the writer abandoned on new_request's error path must not release it early
+    shared.writer_drop_waits_turn(ctx, "C10.7")
+
     # ---- C10.6 Expect handling in new_request
     nr = facts.fn("request::new_request")
     ctx.touch(nr)
